@@ -64,4 +64,4 @@ require (
 	gopkg.in/yaml.v3 v3.0.0-20210107192922-496545a6307b // indirect
 )
 
-replace github.com/streamingfast/bstream => /tmp/ag/x/repo
+replace github.com/streamingfast/bstream => /repo
